@@ -40,6 +40,22 @@ def nuk_long(rng):
     return ops
 
 
+def nuk_long_random(rng):
+    """Primary keys with random content whose ESCAPED length is around and beyond 256 (raw lengths 130..300 with
+    many 0x00/0x01 bytes, each of which takes two bytes), sharing long prefixes and tails."""
+    n = rng.choice([130, 200, 250, 254, 260, 300])
+    base = [rng.choice([0, 1, 1, 0, 7, 255, rng.randrange(256)]) for _ in range(n)]
+    ps = [base, base[:-1], base + [0], base + [1], base + [9], base[:n // 2] + [3] + base[n // 2:],
+          [9] + base, base[1:], base[:128], base[:127] + [0], base[:255], base[:256]]
+    tail = base[-100:]
+    ps += [[4] * 170 + tail, [5] * 170 + tail, [4] * 200 + tail]
+    uniq = []
+    for p in ps:
+        if p not in uniq:
+            uniq.append(p)
+    return [dict(op="nuk", s=s, p=p) for s in ([], [0], [1, 1], [200]) for p in uniq]
+
+
 def nuk_medium(rng):
     """Keys of 14..40 bytes (beyond any short-key fast path) with 0x00/0x01/0x02 at every position."""
     L = rng.choice([14, 15, 16, 17, 24, 31, 32, 33, 40])
@@ -119,6 +135,8 @@ def generate(tier, seed):
     for i in range(3 if quick else 30):
         tables.append((f"nuk-medium-{i}", nuk_medium(rng)))
     tables.append(("nuk-long", nuk_long(rng)))
+    for i in range(2 if quick else 12):
+        tables.append((f"nuk-long-random-{i}", nuk_long_random(rng)))
     for w in (16, 32, 64):
         tables.append((f"uint{w}", uint_table(rng, w, 120 if quick else 600)))
     for k in ("int16", "int32", "int64", "int", "bool", "string"):
